@@ -27,6 +27,8 @@ fn main() {
         let res = modes::run(mode, &rest, &line);
         out.write_all(res.as_bytes()).unwrap();
         out.write_all(b"\n").unwrap();
+        // flush per case: when a case kills the process (stack overflow), everything before it has been delivered
+        out.flush().unwrap();
     }
     out.flush().unwrap();
 }
